@@ -522,7 +522,15 @@ fn build_item(d: &mut Dice) -> (Item, Vec<String>, Vec<String>) {
                 let fs = mk_fields(&fg.fields, named, d);
                 item.body = if named { ItemBody::Named(fs) } else { ItemBody::Tuple(fs) };
             }
-            if cls == "Into" && d.chance(40) {
+            let all_u = n > 0 && fg.fields.iter().all(|f| *f == FT::U);
+            if cls == "Into" && all_u && d.chance(35) {
+                // into.md: listed types (`i64: From<U>` holds for the universal type); a tuple type for several fields
+                let ty = if n == 1 { "i64".to_string() } else { format!("({})", vec!["i64"; n].join(", ")) };
+                item.cont_attrs.push(
+                    [format!("#[into({ty})]"), format!("#[into(owned({ty}), ref)]"), format!("#[into({ty})]\n#[into(ref_mut)]"), format!("#[into(owned, ref({ty}))]")][d.pick(3)].clone(),
+                );
+                labels.push("attr=types".into());
+            } else if cls == "Into" && d.chance(40) {
                 item.cont_attrs.push(["#[into(owned, ref, ref_mut)]", "#[into(ref)]", "#[into(owned)]", "#[into(ref_mut)]"][d.pick(4)].to_string());
                 labels.push("attr=into_kinds".into());
             }
@@ -797,8 +805,9 @@ fn build_item(d: &mut Dice) -> (Item, Vec<String>, Vec<String>) {
                 if n > 0 && !lone_param && d.chance(25) {
                     item.cont_attrs.push("#[from(forward)]".into());
                     labels.push("attr=forward".into());
-                } else if n == 1 && fg.fields[0] == FT::U && d.chance(40) {
-                    item.cont_attrs.push("#[from(i64)]".into());
+                } else if n >= 1 && fg.fields.iter().all(|f| *f == FT::U) && d.chance(40) {
+                    let ty = if n == 1 { "i64".to_string() } else { format!("({})", vec!["i64"; n].join(", ")) };
+                    item.cont_attrs.push(if d.chance(50) { format!("#[from({ty})]") } else { format!("#[from({ty})]\n#[from({})]", if n == 1 { "U".to_string() } else { format!("({})", vec!["U"; n].join(", ")) }) });
                     labels.push("attr=types".into());
                 }
                 item.body = if n == 0 { ItemBody::Unit } else if named { ItemBody::Named(fs) } else { ItemBody::Tuple(fs) };
@@ -975,7 +984,8 @@ fn build_item(d: &mut Dice) -> (Item, Vec<String>, Vec<String>) {
     }
     let no_trait_needed = matches!(cls, "Constructor" | "Into" | "From" | "Accessors" | "TryInto" | "Debug");
     // (not next to `#[from(i64)]`/`forward`, which require `From<..>` of the field types)
-    let converts = item.cont_attrs.iter().any(|a| a.contains("(i64)") || a.contains("forward"))
+    let converts = labels.iter().any(|l| l == "attr=types" || l == "attr=forward")
+        || item.cont_attrs.iter().any(|a| a.contains("i64") || a.contains("forward"))
         || matches!(&item.body, ItemBody::Enum(vs) if vs.iter().any(|v| v.attrs.iter().any(|a| a.contains("forward"))));
     if no_trait_needed && !converts && d.chance(12) {
         let mut done = false;
